@@ -222,6 +222,60 @@ def load_corpus():
     return _corpus_cache
 
 
+_sensitive_cache = None
+
+
+def load_order_sensitive():
+    """Indices of corpus cores whose reported seed depends on the solver's model order
+    (tools/mine_sensitive.py); workload weighting only."""
+    global _sensitive_cache
+    if _sensitive_cache is None:
+        try:
+            with open(os.path.join(os.path.dirname(CORPUS), "maa_order_sensitive.json")) as fh:
+                _sensitive_cache = [i for i in json.load(fh) if i < len(load_corpus())]
+        except (OSError, ValueError):
+            _sensitive_cache = []
+    return _sensitive_cache
+
+
+def fam_maa_deadpad(rng, nmax):
+    """A mined motif-avoidant core whose every update function is gated by nk constants:
+    f' = (K == live valuation) ? f : random alternative.  After percolating the constants
+    the dynamics is the core's, but 1 - 2^-nk of the implicants are dead, so the Petri net of
+    every node is a small fraction of the network's net (restricted-net code paths)."""
+    corpus = load_corpus()
+    sens = load_order_sensitive()
+    if not corpus:
+        return fam_sparse(rng, min(nmax, 5))
+    nk = 2 if nmax >= 6 else 1
+    fit = [i for i in range(len(corpus)) if len(corpus[i]) + nk <= nmax]
+    fit_s = [i for i in sens if len(corpus[i]) + nk <= nmax]
+    if not fit:
+        return fam_maa(rng, nmax)
+    core = corpus[rng.choice(fit_s) if fit_s and rng.random() < 0.7 else rng.choice(fit)]
+    funcs = [[list(r), list(t)] for r, t in core]
+    n0 = len(funcs)
+    ks = []
+    for _ in range(nk):
+        ks.append(len(funcs))
+        funcs.append([[], [rng.randint(0, 1)]])
+    live = sum((funcs[k][1][0] << j) for j, k in enumerate(ks))
+    for tgt in range(n0):
+        regs, tt = funcs[tgt]
+        if len(regs) + nk <= 5:
+            blocks = []
+            for b in range(1 << nk):
+                blocks += tt if b == live else [rng.randint(0, 1) for _ in tt]
+            funcs[tgt] = [regs + ks, blocks]
+    room = nmax - len(funcs)
+    if room > 0 and rng.random() < 0.4:
+        f, fr = fam_sparse(rng, 1, p_input=0.3, p_const=0.0, kmax=1)
+        f, fr = _shift(f, fr, len(funcs))
+        funcs += f
+        return funcs, fr
+    return funcs, []
+
+
 def fam_maa(rng, nmax):
     """Embedding of a mined motif-avoidant core: core + optional input / downstream / sibling."""
     corpus = load_corpus()
@@ -332,7 +386,7 @@ def fam_degenerate(rng, nmax):
     return funcs, free
 
 
-FAMILIES = ["sparse", "dense", "canal", "modular", "maa", "cascade", "maa_cascade", "degenerate"]
+FAMILIES = ["sparse", "dense", "canal", "modular", "maa", "cascade", "maa_cascade", "degenerate", "maa_deadpad"]
 
 
 def gen_network(rng, weights=None, nmin=2, nmax=6, fmts=("bnet", "aeon"), names=None, shuffle_order=False):
@@ -356,6 +410,8 @@ def gen_network(rng, weights=None, nmin=2, nmax=6, fmts=("bnet", "aeon"), names=
         funcs, free = fam_degenerate(rng, nmax)
     elif fam == "maa_cascade":
         funcs, free = fam_maa_cascade(rng, nmax)
+    elif fam == "maa_deadpad":
+        funcs, free = fam_maa_deadpad(rng, nmax)
     elif fam == "cascade":
         funcs, free = fam_cascade(rng, rng.randint(max(nmin, 3), nmax))
     else:
